@@ -1,6 +1,6 @@
 (* binary serde deserializer walks (C04 / C10): the three extracted models run from the BYTES.
    de.model.bin <path> <strategy> <resolver> <flavor> <shape> <hex>       (arguments of de.bin)
-     path     = tape | slice | fslice | reader:<cap>:<sched>   (sched without faults: "-" | n,n,..[*])
+     path     = tape | slice | fslice | reader:<cap>:<sched> | btape | bslice | breader:<cap>:<sched>   (sched without faults: "-" | n,n,..[*])
      strategy = error | stringify | ignore
      resolver = map:<id>=<hexname>,... | lines:<id>=<hexname>,...   ("-" = empty)
      flavor   = eu4 (windows-1252, fixed point floats) | raw (utf-8, IEEE floats)
@@ -226,6 +226,9 @@ let run_model path strat res fl shape hexdata : string =
   let sh = parse_shape shape in
   let d = bytes_of_hex hexdata in
   let r =
+    (* [a_c10] btape / bslice / breader:<cap>:<sched> = the same three walks (harness: the deserializer-returning builder methods) *)
+    let path = if path = "btape" then "tape" else if path = "bslice" then "slice"
+      else if St.length path > 8 && St.sub path 0 8 = "breader:" then St.sub path 1 (St.length path - 1) else path in
     if path = "tape" then BinDeTape.deser_tape cfg sh d
     else if path = "slice" || path = "fslice" then BinDeOndemand.deser_ondemand cfg sh d
     else if St.length path > 7 && St.sub path 0 7 = "reader:" then begin
